@@ -216,6 +216,6 @@ def c_dispatch(t_reg: bool, u_reg: bool, d_reg: bool, style: int, ri: int, pos: 
             devs.append(d)
         t.eof()
         loop.run_ready()
-        if loop.exc:
+        if loop.errors():
             devs.append('loop-exception-handler-called')
     return pick_dev(devs, ALLOWED)
